@@ -40,9 +40,11 @@ def _cmp_closure_order(P, fn, sort_call, field):
 
 def run(ctx, progs):
     P = progs.get("default")
-    f = P.fn(COLLAPSE)
-    ctx.rule("R18.a", "ONE PER VALUE: in collapse_hits the push of a group key onto the output order is controlled by the miss arm of "
-                      "BTreeMap::contains_key on the group map, and the emitting loop takes each group out of the map with `remove`")
+    # private same-file helpers (a bucketing helper, a window helper) are spliced into the view; resort_hits stays a call (R18.c)
+    f = P.inlined(COLLAPSE, depth=2, keep=(RESORT,))
+    ctx.rule("R18.a", "ONE PER VALUE: in collapse_hits (private helpers inlined) the push of a group key onto the output order is controlled "
+                      "by the miss arm of contains_key on the group map — or by the Vacant arm of its entry() — and the emitting loop "
+                      "takes each group out of the map with `remove`")
     ctx.rule("R18.b", "BEST FIRST / SAME GROUP: the group's list is sorted by (a.key, b.key); the representative is `next()` of the sorted "
                       "list's iterator and the inner hits are `collect()` of that same iterator")
     ctx.rule("R18.c", "INNER SORT: a differing inner sort goes through resort_hits(rest, inner plan), which sorts by (a.0, b.0) keys built "
@@ -69,6 +71,27 @@ def run(ctx, progs):
                 neg = any(d["k"] == "assign" and d["rv"]["k"] == "unop" for d in f.defs().get(op_local(ta["on"]), []))
                 miss = (ta["otherwise"] if 0 in vals else vals.get(1)) if neg else vals.get(0)
                 if succ == miss:
+                    ok_a = True
+            # `match map.entry(key) { Vacant(slot) => { order.push(..); slot.insert(..) } Occupied(..) => .. }`
+            for x in sl0.sources(ta["on"]):
+                if x[0] != "discr":
+                    continue
+                pl = f.blocks[x[1]]["stmts"][x[2]]["rv"]["place"]
+                if not re.search(r"map::entry::Entry<|map::Entry<", f.local_ty(pl["l"])) or pl["p"]:
+                    continue
+                # the arm taken is the Vacant one: the entry is downcast to Vacant on the way to the push
+                arm = f.reachable_from(succ, stop=[a])
+                vac = occ = False
+                for bb in arm:
+                    if not f.dominates_block(succ, bb) or not (bb == b or b in f.reachable_from(bb)):
+                        continue
+                    for st_ in f.blocks[bb]["stmts"]:
+                        txt = str(st_)
+                        if st_["k"] == "assign" and "'downcast': 'Vacant'" in txt and ("'l': %d," % pl["l"]) in txt:
+                            vac = True
+                        if st_["k"] == "assign" and "'downcast': 'Occupied'" in txt and ("'l': %d," % pl["l"]) in txt:
+                            occ = True
+                if vac and not occ:
                     ok_a = True
     removes = [(b, t) for b, t in f.calls() if re.search(r"BTreeMap::<K, V(, A)?>::remove$|HashMap::<K, V, S(, A)?>::remove$", callee_of(t))]
     ctx.floor("R18.a", len(pushes), 1, "push onto the group order in collapse_hits")
@@ -156,7 +179,7 @@ def run(ctx, progs):
                                 a0 = {y[1] for y in hs.sources(ht["args"][0]) if y[0] == "arg"}
                                 a1 = {y[1] for y in hs.sources(ht["args"][1]) if y[0] == "arg"}
                                 order_g = a0 == {2} and a1 == {3}
-        builds = any(callee_of(t).endswith("SortPlan::build_key") for b, t in g.calls())
+        builds = any(callee_of(t).endswith("SortPlan::build_key") for h_ in [g] + P.closures_of(g) for b, t in h_.calls())
         ok_c = arg_plan_inner and order_g is True and builds
     ctx.ob("R18.c", "R18.c:collapse_hits:inner-sort", ok_c,
            "a differing inner sort re-sorts the rest with keys built by the inner plan, compared as (a, b)" if ok_c else
@@ -171,7 +194,7 @@ def run(ctx, progs):
         tb, tt = truncs[0]
         rng = None
         for x in sl0.sources(dt["args"][1]):
-            if x[0] == "agg" and (x[3].get("adt") or "").endswith("ops::range::Range"):
+            if x[0] == "agg" and (x[3].get("adt") or "").endswith(("ops::range::Range", "ops::range::RangeTo")):
                 rng = x[3]
         def reads_field(operand, name):
             if name in sl.fields(operand):
@@ -186,7 +209,10 @@ def run(ctx, progs):
                             if pl and name in place_fields(pl):
                                 return True
             return False
-        from_ok = rng is not None and (op_const(rng["ops"][0]) or {}).get("int") == 0 and reads_field(rng["ops"][1], "from")
+        if rng is not None and rng["adt"].endswith("RangeTo"):
+            from_ok = reads_field(rng["ops"][0], "from")            # `..from` starts at 0 by construction
+        else:
+            from_ok = rng is not None and (op_const(rng["ops"][0]) or {}).get("int") == 0 and reads_field(rng["ops"][1], "from")
         size_ok = reads_field(tt["args"][1], "size")
         order_ok = tb in f.reachable_from(db) and db not in f.reachable_from(tb, stop=[b for b, t in f.calls() if any("ForLoop" in m for m in (t.get("macros") or []))])
         ok_d = from_ok and size_ok and order_ok
